@@ -355,6 +355,22 @@ Proof.
     rewrite (same_core_stamp _ _ B) in ST. pose proof (m_sst0 _ _ _ A ST). lia.
 Qed.
 
+Lemma set_dp_inv3 s d : inv3 s -> inv3 (set_dp s d).
+Proof. intros I. d3 I. constructor; cbn [set_dp store live pend tick applied completed]; auto. Qed.
+
+Lemma do_relstop_inv3 c s i pd (p : bool) f now :
+  c_ordered c = true -> inv1 s -> inv3 s -> inv3 (fst (do_relstop c s i pd p f now)).
+Proof.
+  intros O I1 I3. rewrite do_relstop_fst. apply do_crash_inv3.
+  - apply relstop_pre_inv1; auto.
+  - unfold relstop_pre.
+    assert (J : inv3 (if pd && c_ordered c then
+                match first_of c s i (pend s) with Some t0 => fst (do_done_core c s t0 false) | None => s end else s)).
+    { destruct (pd && c_ordered c); auto. destruct (first_of c s i (pend s)); auto. apply do_done_core_inv3; auto. }
+    destruct (match aget i (live s) with Some r => negb (s_swif r =? 0) | None => false end); auto.
+    apply set_dp_inv3; auto.
+Qed.
+
 Lemma step_inv13 c s o s' out :
   c_ordered c = true -> c_delretry c = true ->
   inv1 s /\ inv3 s -> step c s o = Some (s', out) -> inv1 s' /\ inv3 s'.
@@ -370,6 +386,7 @@ Proof.
   - inversion H. change s' with (fst (s', out)). rewrite <- H1. apply do_cksf_inv3; auto.
   - inversion H. change s' with (fst (s', out)). rewrite <- H1. apply do_relf_inv3; auto.
   - inversion H. change s' with (fst (s', out)). rewrite <- H1. apply do_crash_inv3; auto.
+  - inversion H. change s' with (fst (s', out)). rewrite <- H1. apply do_relstop_inv3; auto.
 Qed.
 
 (* an established session whose latest checkpoint took effect has its image in the store *)
@@ -410,4 +427,35 @@ Lemma completed_by_done c s t rp ts :
 Proof.
   intros P PO EF ST. unfold do_done. rewrite P, PO. unfold do_done_core. rewrite P, PO, EF. cbn [fst completed].
   rewrite ST. left. auto.
+Qed.
+
+(* a stop in the middle of a release: the session is not counted as released; it is restored iff its image is (still)
+   in the store — in particular when the write that was at the Store completed and the Delete queued behind it did not *)
+Lemma stop_during_release c s i pd (p : bool) f now :
+  released (fst (do_relstop c s i pd p f now)) = released s /\
+  (forall k r, aget k (store (relstop_pre c s i pd)) = Some r -> expired c now r = false ->
+     exists r', aget k (live (fst (do_relstop c s i pd p f now))) = Some r' /\ same_core r r').
+Proof.
+  rewrite do_relstop_fst. split.
+  - assert (R0 : released (relstop_pre c s i pd) = released s).
+    { unfold relstop_pre.
+      assert (R1 : released (if pd && c_ordered c then
+                match first_of c s i (pend s) with Some t0 => fst (do_done_core c s t0 false) | None => s end else s)
+                = released s).
+      { destruct (pd && c_ordered c); auto. destruct (first_of c s i (pend s)); auto.
+        unfold do_done_core. destruct (aget n (pend s)); auto. destruct (aget n (poison s)); [destruct false; auto|].
+        destruct (effective c s (s_id s0) n); auto. }
+      destruct (match aget i (live s) with Some r => negb (s_swif r =? 0) | None => false end); auto. }
+    rewrite <- R0. unfold do_crash.
+    match goal with |- context [fold_left (restore_one c now f ?CA ?ST) ?L (?S0, ?LG)] =>
+      assert (G : forall ks a, released (fst (fold_left (restore_one c now f CA ST) ks a)) = released (fst a)) end.
+    { induction ks as [|k ks IH]; intros [s0 lg0]; cbn [fold_left]; auto. rewrite IH. cbn [fst].
+      unfold restore_one. destruct (aget k (store (relstop_pre c s i pd))); auto. destruct (expired c now s1); auto.
+      destruct (match c_proto c with IPoE => s_appr s1 && negb (s_crea s1) | PPPoE => false end); auto.
+      destruct (replayed c s1); auto. destruct (match f with Some f0 => f0 =? k | None => false end); auto.
+      destruct (dp_add k (dp (install c s0 k s1)) (dpnext (install c s0 k s1))) as [[sw d1] nx1]. auto. }
+    destruct (fold_left _ _ _) as [s4 lg] eqn:E. cbn [fst].
+    change s4 with (fst (s4, lg)). rewrite <- E, G. reflexivity.
+  - intros k r G EX.
+    destruct (established_restored c (relstop_pre c s i pd) p f now k r G EX) as (lg & _ & r' & GL & SC & _). eauto.
 Qed.
